@@ -1,6 +1,7 @@
 ---------------------------- MODULE MC_JsonDict ----------------------------
 (* C20 (M + G).                                                             *)
-(*  Mode "model": every JSON-able combinator term of depth <= 2 over the    *)
+(*  Mode "model": every JSON-able combinator term of depth <= Depth (1, 2; 3  *)
+(*    adds options / vectors of all depth-1 terms, all leaf pairs) over the *)
 (*    leaf types plus model structs (upper-cased keys, single-field tuple   *)
 (*    structs, opt2 wire fields, block and proof-of-space views), small     *)
 (*    exhaustive value sets, scaled point widths. Invariants: FromJ inverts *)
@@ -87,7 +88,10 @@ D2 == D1 \cup {OptT(t) : t \in D1v} \cup {VecT(t) : t \in D1c} \cup {VecT(TupT(<
          \cup {TupT(<<a, b>>) : a \in D0s, b \in D1c} \cup {ArrT(t, 2) : t \in D1c}
 Named == {RefT("Inner"), RefT("Upper"), RefT("New"), RefT("NewOpt"), RefT("En"), RefT("Sub"), RefT("Outer"), RefT("Empty"),
           RefT("Blk"), RefT("Pos"), VecT(RefT("Inner")), OptT(RefT("Upper")), TupT(<<RefT("New"), RefT("Upper")>>), VecT(RefT("Pos"))}
-ModelTypes == (IF Depth >= 2 THEN D2 ELSE D1) \cup Named
+\* depth 3 (thorough): options / vectors of every depth-1 term, pairs and arrays over all leaf types
+D1n == D1 \ {OptT(t) : t \in D0}
+D3 == D2 \cup {OptT(t) : t \in D1n} \cup {VecT(t) : t \in D1} \cup {TupT(<<a, b>>) : a, b \in D0} \cup {ArrT(t, 2) : t \in D0 \cup D1c}
+ModelTypes == (IF Depth >= 3 THEN D3 ELSE IF Depth >= 2 THEN D2 ELSE D1) \cup Named
 
 Pairs(A, B) == {<<a, b>> : a \in A, b \in B}
 OptOf(S) == {<<>>} \cup {<<v>> : v \in S}
